@@ -265,4 +265,34 @@ int vorbis_synthesis_lapout(vorbis_dsp_state *v, float ***pcm)
 #endif
   ;
 
+
+/* ---- the block-local arena: _vorbis_block_alloc / _vorbis_block_ripcord (C02, C11, C13) ---- */
+#ifdef VERIF_UNIT_ARENA
+#define WORD_ALIGN_V 8
+long g_top0, g_alloc0, g_use0; void *g_store0; struct alloc_chain *g_reap0;
+/* INV_VB (arena part): the store holds localalloc bytes, localtop of them handed out */
+#define ARENA_OK(vb) ((vb)->localalloc >= 0 && (vb)->localalloc <= (1L << 30) && (vb)->localtop >= 0 && (vb)->localtop <= (vb)->localalloc && \
+   (vb)->totaluse >= 0 && (vb)->totaluse <= (1L << 40) && ((vb)->localtop & (WORD_ALIGN_V - 1)) == 0 && \
+   ((vb)->localstore == NULL ? (vb)->localalloc == 0 : __CPROVER_rw_ok((vb)->localstore, (vb)->localalloc)))
+void *_vorbis_block_alloc(vorbis_block *vb, long bytes)
+  __CPROVER_requires(__CPROVER_rw_ok(vb, sizeof(*vb)) && ARENA_OK(vb) && bytes >= 0 && bytes <= (1L << 28) && (bytes >= 1 || vb->localstore != NULL))   /* a zero-byte request on an empty arena returns NULL+0: no call site does that */
+  __CPROVER_requires(g_top0 == vb->localtop && g_alloc0 == vb->localalloc && g_use0 == vb->totaluse && g_store0 == vb->localstore && g_reap0 == vb->reap)
+  __CPROVER_assigns(vb->localtop, vb->localalloc, vb->localstore, vb->totaluse, vb->reap)
+  /* the region handed out lies inside the (possibly new) store and holds `bytes` bytes */
+  __CPROVER_ensures(RV != NULL && vb->localalloc >= 0 && vb->localalloc <= (1L << 30) && vb->localtop >= 0 && vb->localtop <= vb->localalloc &&
+                    (vb->localtop & (WORD_ALIGN_V - 1)) == 0 && vb->localstore != NULL && __CPROVER_rw_ok(vb->localstore, vb->localalloc))
+  __CPROVER_ensures((char *)RV >= (char *)vb->localstore && (char *)RV + bytes <= (char *)vb->localstore + vb->localtop)
+  __CPROVER_ensures(__CPROVER_rw_ok(RV, bytes))
+  /* earlier regions stay valid: either the same store grew its top, or the old
+     store was parked on the reap chain (not freed) and accounted in totaluse */
+  __CPROVER_ensures(vb->localstore == g_store0 ? (vb->reap == g_reap0 && vb->totaluse == g_use0 && vb->localtop >= g_top0)
+                                               : ((g_store0 == NULL ? vb->reap == g_reap0 : (vb->reap != NULL && vb->reap->ptr == g_store0 && vb->reap->next == g_reap0 && vb->totaluse == g_use0 + g_top0 && __CPROVER_rw_ok(g_store0, g_alloc0)))))
+#ifdef VERIF_ENFORCE__vorbis_block_alloc
+  REACH_ENSURES(vb->localstore == g_store0 && bytes > 0)
+  REACH_ENSURES(vb->localstore != g_store0 && g_store0 != NULL)
+  REACH_ENSURES(g_store0 == NULL)
+#endif
+  ;
+#endif
+
 #endif
